@@ -62,21 +62,42 @@ class Fixture:
             d = self.mdg.subdomain_data(g)
             for k in (pp.TIME_STEP_SOLUTIONS, pp.ITERATE_SOLUTIONS):
                 d.pop(k, None)
+        for g in self.mdg.interfaces():
+            d = self.mdg.interface_data(g)
+            for k in (pp.TIME_STEP_SOLUTIONS, pp.ITERATE_SOLUTIONS):
+                d.pop(k, None)
+        intfs = self.mdg.interfaces()
         self.es = pp.ad.EquationSystem(self.mdg)
         mda = self.es.create_variables("a", {"cells": 1}, subdomains=sds)
         mdb = self.es.create_variables("b", {"cells": 1}, subdomains=sds)
+        # md-variables whose sub-variables are NOT in md-grid order: created on the reversed list of subdomains /
+        # interfaces, and (below) hand-built from two atomic variables of "a" in swapped order
+        mdc = self.es.create_variables("c", {"cells": 1}, subdomains=sds[::-1])
+        mdd = self.es.create_variables("d", {"cells": 1}, interfaces=intfs[::-1])
         self.ndof = int(self.es.num_dofs())
-        # stored values: (variable name, grid position, "t"/"i", index) -> array; all on the lattice, all positive
-        self.stored = {}
-        for md in (mda, mdb):
-            for gi, v in enumerate(md.sub_vars):
+        # stored values: (variable name, grid id, "t"/"i", index) -> array; all on the lattice, all positive; the four
+        # stored vectors of a variable and its slice of the state are pairwise different (a wrong index is visible)
+        self.stored, self.atom = {}, {}
+        self.state = np.zeros(self.ndof)
+        for md in (mda, mdb, mdc, mdd):
+            for v in md.sub_vars:
+                self.atom[(md.name, v.domain.id)] = v
+                taken = []
+
+                def fresh(n=int(v.size)):
+                    while True:
+                        x = _vec(rng, n)
+                        if not any(np.array_equal(x, y) for y in taken):
+                            taken.append(x)
+                            return x
+
                 for k in (0, 1):
                     for loc in ("t", "i"):
-                        x = _vec(rng, int(v.size))
-                        self.stored[(md.name, gi, loc, k)] = x
+                        x = fresh()
+                        self.stored[(md.name, v.domain.id, loc, k)] = x
                         kw = {"time_step_index": k} if loc == "t" else {"iterate_index": k}
                         self.es.set_variable_values(x.copy(), [v], **kw)
-        self.state = _vec(rng, self.ndof)
+                self.state[self.es.dofs_of([v])] = fresh()
         self.state0 = np.asarray(self.es.get_variable_values(iterate_index=0), dtype=float).copy()
         nh = int(host.num_cells)
         n9 = int(mda.size)
@@ -105,11 +126,18 @@ class Fixture:
                                     cstates=[list(s) for s in cstates]))
 
         var_states = ([-1, -1], [0, -1], [1, -1], [-1, 0], [-1, 1])
-        add("a0", "Variable", mda.sub_vars[0], ("var", "a", [0]), n=nh, states=var_states, cstates=([-1, -1], [0, -1]))
-        add("b0", "Variable", mdb.sub_vars[0], ("var", "b", [0]), n=nh, states=([-1, -1], [0, -1]), cstates=([-1, -1],))
-        add("A", "MixedDimensionalVariable", mda, ("var", "a", list(range(len(sds)))), n=n9,
+        gids = lambda md: [v.domain.id for v in md.sub_vars]  # noqa
+        add("a0", "Variable", mda.sub_vars[0], ("var", "a", [host.id]), n=nh, states=var_states, cstates=([-1, -1], [0, -1]))
+        add("b0", "Variable", mdb.sub_vars[0], ("var", "b", [host.id]), n=nh, states=([-1, -1], [0, -1]), cstates=([-1, -1],))
+        add("A", "MixedDimensionalVariable", mda, ("var", "a", gids(mda)), n=n9,
             states=([-1, -1], [0, -1], [1, -1], [-1, 0]), cstates=([-1, -1],))
-        add("B", "MixedDimensionalVariable", mdb, ("var", "b", list(range(len(sds)))), n=n9, states=([-1, -1], [-1, 0]))
+        add("B", "MixedDimensionalVariable", mdb, ("var", "b", gids(mdb)), n=n9, states=([-1, -1], [-1, 0]))
+        # sub-variables in an order different from the md-grid's (and from the global dof order)
+        add("C", "MixedDimensionalVariable", mdc, ("var", "c", gids(mdc)), n=int(mdc.size), states=var_states,
+            cstates=([-1, -1],))
+        hand = pp.ad.MixedDimensionalVariable([mda.sub_vars[1], mda.sub_vars[0]])      # fracture before host
+        add("Ah", "MixedDimensionalVariable", hand, ("var", "a", gids(hand)), n=int(hand.size), states=var_states)
+        add("Dv", "MixedDimensionalVariable", mdd, ("var", "d", gids(mdd)), n=int(mdd.size), states=var_states)
         add("S", "Scalar", pp.ad.Scalar(2.0), 2.0, cstates=(CUR,))
         d4, d9 = _vec(rng, nh), _vec(rng, n9)
         add("D4", "DenseArray", pp.ad.DenseArray(d4.copy()), d4, n=nh, cstates=(CUR,))
@@ -167,7 +195,8 @@ class Fixture:
             return pp.ad.Function(self.funcs[e[1]], e[1])(*[self.build(a) for a in e[2]])
         if t == "shift":
             o = self.build(e[2])
-            return o.previous_timestep() if e[1] == "time" else o.previous_iteration()
+            k = 2 if e[1].endswith("2") else 1
+            return o.previous_timestep(steps=k) if e[1].startswith("time") else o.previous_iteration(steps=k)
         raise ValueError(e)
 
     def project(self, o):
@@ -211,13 +240,12 @@ class Fixture:
 
     # ---- the oracle: TLC's DirectProg on forward-mode arrays ---------------------------------------------------------
     def dofs(self, var, grids):
-        md = self.es.md_variable(var)
-        return np.hstack([self.es.dofs_of([md.sub_vars[g]]) for g in grids]).astype(int)
+        return np.hstack([self.es.dofs_of([self.atom[(var, g)]]) for g in grids]).astype(int)
 
     def leaf_value(self, name, tsi, iti, ad):
         p = self.plain[name]
         if isinstance(p, tuple) and p[0] == "var":
-            _, var, grids = p
+            _, var, grids = p          # grids: the domains of the sub-variables, in the order of the sub-variables
             if tsi < 0 and iti < 0:
                 return ad[self.dofs(var, grids)]
             loc, k = ("t", tsi) if tsi >= 0 else ("i", iti)
@@ -229,6 +257,20 @@ class Fixture:
         return p.copy() if hasattr(p, "copy") else p
 
     def direct(self, prog, ad):
+        """Interpret TLC's DirectProg; self.all_finite records whether EVERY intermediate value was finite."""
+        r = self._direct(prog, ad)
+        pp = self.pp
+        if isinstance(r, pp.ad.AdArray):
+            ok = np.all(np.isfinite(r.val)) and np.all(np.isfinite(r.jac.data))
+        elif isinstance(r, (np.ndarray, float, int)):
+            ok = np.all(np.isfinite(r))
+        else:
+            ok = True
+        if not ok:
+            self.all_finite = False
+        return r
+
+    def _direct(self, prog, ad):
         t = prog[0]
         if t == "leaf":
             return self.leaf_value(prog[1], prog[2], prog[3], ad)
@@ -324,6 +366,7 @@ def execute(fix, rec, entry):
     ad = pp.ad.initAdArrays([state.copy()])[0]
     with warnings.catch_warnings(), np.errstate(all="ignore"):
         warnings.simplefilter("ignore")
+        fix.all_finite = True
         try:
             ref = fix.direct(rec["prog"], ad)      # any other exception here is a defect of the typing rules: machinery
         except ArithmeticError as e:               # division by zero / overflow: the expression is undefined at this state
@@ -335,7 +378,7 @@ def execute(fix, rec, entry):
             rk = _kind(ref)
             rval = ref.val if rk == "AdArray" else _as_vec(ref)
             rjac = _dense(ref.jac) if rk == "AdArray" else np.zeros((rval.size, fix.ndof))
-            finite = bool(np.all(np.isfinite(rval)) and np.all(np.isfinite(rjac)))
+            finite = bool(fix.all_finite and np.all(np.isfinite(rval)) and np.all(np.isfinite(rjac)))
         out["r"].update(kind=rk, n=int(rval.size), finite=finite)
         o = None
         try:
@@ -388,8 +431,9 @@ def execute(fix, rec, entry):
         for p in rec["prev"]:
             pr = dict(expr=p["expr"], err="", n=0, val=[], jnnz=0, ref=[], exact=True, q=0, finite=True)
             try:
+                fix.all_finite = True
                 pref = _as_vec(fix.direct(p["prog"], ad))
-                pr["finite"] = bool(np.all(np.isfinite(pref)))
+                pr["finite"] = bool(fix.all_finite and np.all(np.isfinite(pref)))
             except ArithmeticError:
                 pref, pr["finite"] = np.zeros(0), False
             try:
@@ -515,11 +559,11 @@ def run_cases(ctx, fix, recs):
 
 
 def run(ctx):
-    ctx.rule = ("TLC grows every well-typed expression (typing rules of OperatorTree.tla) over a table of 27 leaves (atomic / md / "
+    ctx.rule = ("TLC grows every well-typed expression (typing rules of OperatorTree.tla) over a table of 30 leaves (atomic / md (also with sub-variables not in md-grid order: reversed creation, hand-built, on interfaces) / "
                 "previous-time (1-2 steps) / previous-iterate variables, Scalar, DenseArray, SparseArray, Projection, "
                 "ProjectionList, TimeDependentDenseArray, raw float / int / numpy scalar / ndarray / scipy matrix) x "
                 "{+,-,*,/,**,@} x operand order x pp.ad.Function(exp, abs, l2_norm, maximum) x previous_timestep / "
-                "previous_iteration of composites: depth <= 1 complete, depth 2 over 11 core leaves (quick: a hashed subset; "
+                "previous_iteration (steps 1 and 2) of composites: depth <= 1 complete, depth 2 over 12 core leaves (quick: a hashed subset; "
                 "thorough: all with a leaf operand + sampled composite op composite + sampled depth 3); a case is one "
                 "expression built with the real overloads and evaluated with and without derivatives; distinct = "
                 "expression shapes (operations and leaf classes)")
@@ -528,7 +572,8 @@ def run(ctx):
         "numbers are compared as exact rationals when every number of the case is within 1e-9 of a rational with "
         "denominator <= 1000; otherwise by the largest deviation |x-ref|/max(1,|ref|): <= 1e-9 passes, > 1e-6 fails, the "
         "band in between is inconclusive (DESIGN 8)",
-        "expressions whose direct evaluation is not finite at the state (division by zero, overflow) are outside the family",
+        "expressions whose direct evaluation is not finite at the state in some sub-expression (division by zero, overflow, "
+        "negative base with a fractional power) are outside the family",
         "well-typed = the typing rules of the forward-mode arrays (OperatorTree.DirectK): scalars / equally sized arrays / "
         "AdArrays with every operation except @; sparse matrices only as M@x, M+-M, c*M, M/c; projections only as P@x",
         "entry points alternate: EquationSystem.evaluate(state), Operator.value / value_and_jacobian(state), "
